@@ -47,5 +47,12 @@ EXPORTED = {
     'PacketNumber::decode': ['PartialDecode::decrypt_header'],
     'HeaderKey::decrypt': ['PartialDecode::decrypt_header'],
 }
-FLOOR_SITES = 56
+# Floors on what must exist, not on the exact number of sites of the pinned tree.  Counted: sites whose index / length is not a
+# compile-time-true literal (a literal index below the literal length of a local array, e.g. `buf[0]` of `[0; 8]` in VarInt::decode,
+# consumes no peer byte; how often it is spelled is free -- those sites are classified by the table but not counted).
+#   FLOOR_AUTO    reads discharged by a built-in idiom: 33 on the pinned tree; 3 may be merged away (two adjacent reads under one guard)
+#   FLOOR_PINNED  sites pinned one by one in TABLE above, each with its own reason line (all entries except the constant-index one
+#                 of VarInt::decode, and the fixed-length CID parser closure and the Retry-token split, which an idiom discharges)
 FLOOR_AUTO = 30
+FLOOR_PINNED = 19
+FLOOR_SITES = FLOOR_AUTO + FLOOR_PINNED
